@@ -45,11 +45,12 @@ class FakeTest:
         return self
 
 
-def honest_report(ran, fails, errs):
+def honest_report(ran, fails, errs, nimp=0):
     """Bytes the real child writes to its original stderr."""
     import sys
     runner = types.SimpleNamespace(ran=ran, failures=[(FakeTest(n), None) for n in fails],
                                    errors=[(FakeTest(n), None) for n in errs],
+                                   import_errors=[FakeTest('broken.module%d' % i) for i in range(nimp)], skipped=[],
                                    options=types.SimpleNamespace(resume_layer=LAYER, processes=1))
     sp = P.SubProcess(runner)
     sp.original_stderr = Stream()
@@ -154,7 +155,7 @@ def expected_name(n):
     return ' '.join(n.strip().split('\n')).strip()
 
 
-def chan(ran, nf, f0, f1, ne, e0, e1, nn, k0, k1, cut, fault, verbose, nout):
+def chan(ran, nf, f0, f1, ne, e0, e1, nn, k0, k1, cut, fault, verbose, nout, nimp=0):
     global LAST
     W.reset()
     STATE.clear()
@@ -169,7 +170,8 @@ def chan(ran, nf, f0, f1, ne, e0, e1, nn, k0, k1, cut, fault, verbose, nout):
     with untraced():
         o = RW.options(['-' + 'v' * verbose] if verbose else [])
         o.processes = 1
-    report = honest_report(ran, fails, errs)
+    nimp = ci(nimp, 0, 1)       # modules the child could not import (it rediscovers the tree)
+    report = honest_report(ran, fails, errs, nimp)
     full = b''.join(noise) + report
     # cut: -1 = complete; otherwise the child died after `cut` bytes of its report
     if cut < 0:
@@ -259,22 +261,22 @@ def reap(n, d0, d1, d2, g0, g1, g2):
 
 
 _P = [('ran', 'int'), ('nf', 'int'), ('f0', 'int'), ('f1', 'int'), ('ne', 'int'), ('e0', 'int'), ('e1', 'int'), ('nn', 'int'), ('k0', 'int'),
-      ('k1', 'int'), ('cut', 'int'), ('fault', 'int'), ('verbose', 'int'), ('nout', 'int')]
+      ('k1', 'int'), ('cut', 'int'), ('fault', 'int'), ('verbose', 'int'), ('nout', 'int'), ('nimp', 'int')]
 _C = ', '.join(n for n, _ in _P)
 _NN = len(NAMES)
 _B = ('0 <= ran <= 3 and 0 <= nf <= 2 and 0 <= ne <= 2 and 0 <= nn <= 2 and 0 <= f0 < %d and 0 <= f1 < %d and 0 <= e0 < %d and 0 <= e1 < %d '
-      'and 0 <= k0 < %d and 0 <= k1 < %d and cut >= -1 and 0 <= fault < %d and 0 <= verbose <= 2 and 0 <= nout <= 2'
+      'and 0 <= k0 < %d and 0 <= k1 < %d and cut >= -1 and 0 <= fault < %d and 0 <= verbose <= 2 and 0 <= nout <= 2 and 0 <= nimp <= 1'
       % (_NN, _NN, _NN, _NN, len(NOISE), len(NOISE), len(FAULTS)))
 # canonical form of unused slots (no duplicate paths)
 _CANON = ' and (nf >= 1 or f0 == 0) and (nf >= 2 or f1 == 0) and (ne >= 1 or e0 == 0) and (ne >= 2 or e1 == 0) and (nn >= 1 or k0 == 0) and (nn >= 2 or k1 == 0)'
 _FIX = ' and ran == 3 and nout == 1 and (nf < 2 or f1 == 1) and (ne < 2 or e1 == 0)'
 # complete report: spelling of one failure name (or of one error name when there is no failure) is symbolic
-_Q_COMPLETE = (_B + _CANON + _FIX + ' and cut == -1 and verbose == 0 and nn <= 1 and k0 < %d and f0 != 5 and e0 != 5 and (nf == 0 or ne == 0 or e0 == 2)' % N_PLAIN_NOISE)
+_Q_COMPLETE = (_B + _CANON + _FIX + ' and (nimp == 0 or (nn == 0 and f0 <= 1 and e0 <= 2)) and cut == -1 and verbose == 0 and nn <= 1 and k0 < %d and f0 != 5 and e0 != 5 and (nf == 0 or ne == 0 or e0 == 2)' % N_PLAIN_NOISE)
 # report cut at every byte offset: fixed spellings, symbolic counts, optional noise line
-_Q_CUT = (_B + _CANON + _FIX + ' and 0 <= cut < 80 and verbose == 0 and (fault == 0 or fault == 2) and nn <= 1 and (k0 == 0 or k0 == 4) '
+_Q_CUT = (_B + _CANON + _FIX + ' and nimp == 0 and 0 <= cut < 80 and verbose == 0 and (fault == 0 or fault == 2) and nn <= 1 and (k0 == 0 or k0 == 4) '
           'and (nf == 0 or f0 == 0) and (ne == 0 or e0 == 2)')
 # message building on the error paths (-v / -vv, noise incl. undecodable bytes)
-_Q_VERB = (_B + _CANON + _FIX + ' and cut == -1 and 1 <= verbose <= 2 and (fault == 0 or fault == 4 or fault == 1) and k0 < %d and k1 < %d '
+_Q_VERB = (_B + _CANON + _FIX + ' and nimp == 0 and cut == -1 and 1 <= verbose <= 2 and (fault == 0 or fault == 4 or fault == 1) and k0 < %d and k1 < %d '
            'and nf == 1 and f0 == 0 and ne == 1 and e0 == 2' % (N_PLAIN_NOISE, N_PLAIN_NOISE))
 _T_COMPLETE = _B + _CANON + ' and cut == -1 and k0 < %d and k1 < %d and nn <= 1 and verbose == 0 and (ran == 0 or ran == 3) and nout <= 1' % (N_PLAIN_NOISE, N_PLAIN_NOISE)
 _T_CUT = (_B + _CANON + ' and 0 <= cut < 120 and verbose == 0 and (fault == 0 or fault == 2 or fault == 3) and nn <= 1 and k0 < %d '
@@ -284,7 +286,7 @@ _T_VERB = (_B + _CANON + ' and cut == -1 and 1 <= verbose <= 2 and k0 < %d and k
 
 
 def _v(**kw):
-    v = dict(ran=3, nf=2, f0=0, f1=1, ne=1, e0=2, e1=0, nn=1, k0=0, k1=0, cut=-1, fault=0, verbose=0, nout=1)
+    v = dict(ran=3, nf=2, f0=0, f1=1, ne=1, e0=2, e1=0, nn=1, k0=0, k1=0, cut=-1, fault=0, verbose=0, nout=1, nimp=0)
     v.update(kw)
     return v
 
@@ -311,7 +313,7 @@ SPEC = {
          'reach': 'chan_reach', 'reach_bounds': {'quick': _B + ' and fault == 0 and cut == -1 and verbose == 0 and nout == 1 and ran == 3 and k0 == 0',
                                                  'thorough': _B + ' and fault == 0 and cut == -1 and verbose == 0 and nout == 1 and ran == 3 and k0 == 0'},
          'timeout': {'quick': 300, 'thorough': 1500},
-         'fidelity': [_v(), _v(fault=1), _v(f0=3, f1=4, e0=5, verbose=2, fault=2), _v(nn=2, k0=3, k1=1, fault=3)]},
+         'fidelity': [_v(), _v(fault=1), _v(f0=3, f1=4, e0=5, verbose=2, fault=2), _v(nn=2, k0=3, k1=1, fault=3), _v(nimp=1, nn=0)]},
         {'name': 'cut', 'fn': 'chan', 'params': _P, 'call': _C,
          'bounds': {'quick': _Q_CUT, 'thorough': _T_CUT},
          'slices': {'quick': ['nf == %d and ne == %d and %s' % (a, b, c) for a in range(3) for b in range(3) for c in ('cut < 25', 'cut >= 25')],
